@@ -44,12 +44,12 @@ VARIABLES setups,   \* SetupIds -> server setup (seed, static key, fake key, key
           files,    \* FileIds  -> stored password file
           cl,       \* CliIds   -> client login session
           sv,       \* SrvIds   -> server login session
-          gcount,   \* number of adversary-made values so far
+          garbage,  \* adversary-made values so far (set of Gbg terms)
           tbl,      \* observation: sequence of distinct output terms (value id = position)
           hist      \* observation: sequence of events
 
-pvars == <<setups, regs, files, cl, sv, gcount>>
-vars  == <<setups, regs, files, cl, sv, gcount, tbl, hist>>
+pvars == <<setups, regs, files, cl, sv, garbage>>
+vars  == <<setups, regs, files, cl, sv, garbage, tbl, hist>>
 
 -----------------------------------------------------------------------------
 \* Observation: value ids by first occurrence.  Both TLC (when generating
@@ -110,7 +110,7 @@ Init ==
     /\ files  = [u \in FileIds  |-> NoFile]
     /\ cl     = [c \in CliIds   |-> NoCli]
     /\ sv     = [j \in SrvIds   |-> NoSrv]
-    /\ gcount = 0
+    /\ garbage = {}
     /\ tbl    = <<>>
     /\ hist   = <<>>
 
@@ -134,7 +134,7 @@ SetupNew(s, tape) ==
        /\ setups' = [setups EXCEPT ![s] = [st |-> "live", seed |-> seed, ssk |-> ssk,
                                            fsk |-> fsk, mode |-> "direct"]]
        /\ Observe([ev |-> "SetupNew", id |-> s, tape |-> tape], <<seed, ssk, fsk, KPk(ssk)>>)
-    /\ UNCHANGED <<regs, files, cl, sv, gcount>>
+    /\ UNCHANGED <<regs, files, cl, sv, garbage>>
 
 \* ServerSetup::new_with_key(rng, KeyPair::from_private_key(key)); key given directly or held
 \* behind the external-key interface (one public_key call, which may fail)
@@ -153,7 +153,7 @@ SetupWithKey(s, tape, key, mode, extfail) ==
             /\ Observe([ev |-> "SetupWithKey", id |-> s, tape |-> tape, key |-> Enc(key),
                         mode |-> mode, extfail |-> FALSE, res |-> "Ok"],
                        <<seed, key, fsk, KPk(key)>>)
-    /\ UNCHANGED <<regs, files, cl, sv, gcount>>
+    /\ UNCHANGED <<regs, files, cl, sv, garbage>>
 
 \* ServerSetup::deserialize(seed || sk || fake_sk): restores a setup, or builds one from parts
 \* (same seed under another static key: the "stolen file" server of C06)
@@ -170,7 +170,7 @@ SetupFromParts(s, seed, ssk, fsk, mode, extfail) ==
        /\ Observe([ev |-> "SetupFromParts", id |-> s, parts |-> EncAll(<<seed, ssk, fsk>>),
                    mode |-> mode, extfail |-> extfail, res |-> res],
                   IF res = "Ok" THEN <<seed, ssk, fsk, KPk(ssk)>> ELSE <<>>)
-    /\ UNCHANGED <<regs, files, cl, sv, gcount>>
+    /\ UNCHANGED <<regs, files, cl, sv, garbage>>
 
 -----------------------------------------------------------------------------
 \* Registration
@@ -182,7 +182,7 @@ CRegStart(i, pw, tape) ==
        /\ regs' = [regs EXCEPT ![i] = [NoReg EXCEPT !.st = "started", !.pw1 = pw,
                                                     !.blind = r, !.blinded = b]]
        /\ Observe([ev |-> "CRegStart", id |-> i, pw |-> Enc(pw), tape |-> tape], <<b, r>>)
-    /\ UNCHANGED <<setups, files, cl, sv, gcount>>
+    /\ UNCHANGED <<setups, files, cl, sv, garbage>>
 
 SRegStartRes(s, blinded, cid) ==
     IF IsInvalid(blinded) THEN [res |-> "DecodeErr", eval |-> NoneV, spk |-> NoneV]
@@ -223,7 +223,7 @@ CRegFinish(i, pw2, eval, spkIn, idu, ids, ksf, ksffail, tape) ==
                    idu |-> Enc(idu), ids |-> Enc(ids), ksf |-> ksf, ksffail |-> ksffail,
                    tape |-> tape, res |-> r.res],
                   IF r.res = "Ok" THEN <<r.cpk, r.mk, r.envn, r.envm, r.ek, r.spk>> ELSE <<>>)
-    /\ UNCHANGED <<setups, files, cl, sv, gcount>>
+    /\ UNCHANGED <<setups, files, cl, sv, garbage>>
 
 \* ServerRegistration::finish(upload): the password file IS the upload
 SRegFinish(u, rec) ==
@@ -233,7 +233,7 @@ SRegFinish(u, rec) ==
        /\ files' = IF res = "Ok" THEN [files EXCEPT ![u] = [st |-> "stored", rec |-> rec]] ELSE files
        /\ Observe([ev |-> "SRegFinish", id |-> u,
                    msg |-> EncAll(<<rec.cpk, rec.mk, rec.envn, rec.envm>>), res |-> res], <<>>)
-    /\ UNCHANGED <<setups, regs, cl, sv, gcount>>
+    /\ UNCHANGED <<setups, regs, cl, sv, garbage>>
 
 -----------------------------------------------------------------------------
 \* Login
@@ -247,7 +247,7 @@ CLogStart(c, pw, tape) ==
                                                 !.req = q, !.esk = esk]]
        /\ Observe([ev |-> "CLogStart", id |-> c, pw |-> Enc(pw), tape |-> tape],
                   <<q.blinded, q.cnonce, q.cepk, r, esk>>)
-    /\ UNCHANGED <<setups, regs, files, sv, gcount>>
+    /\ UNCHANGED <<setups, regs, files, sv, garbage>>
 
 SrvFail(r) == [res |-> r, resp |-> NoResp, km3 |-> NoneV, th3 |-> NoneV, sk |-> NoneV]
 
@@ -295,7 +295,7 @@ SLogStart(j, s, rec, req, cid, ctx, idu, ids, tape, extfail) ==
                   THEN <<r.resp.eval, r.resp.mn, r.resp.masked, r.resp.snonce, r.resp.sepk,
                          r.resp.mac, r.km3, r.th3, r.sk>>
                   ELSE <<>>)
-    /\ UNCHANGED <<setups, regs, files, cl, gcount>>
+    /\ UNCHANGED <<setups, regs, files, cl, garbage>>
 
 \* why: which check rejected ("pad" unmasking, "env" envelope MAC, "mac" server MAC); the
 \* invalid-login CLASS is part of C02/C08 (pad, env) but not of C04/C05/C07 (mac), where only
@@ -348,7 +348,7 @@ CLogFinish(c, pw2, m, ctx, idu, ids, ksf, ksffail) ==
                    ctx |-> Enc(ctx), idu |-> Enc(idu), ids |-> Enc(ids), ksf |-> ksf,
                    ksffail |-> ksffail, res |-> r.res, why |-> r.why],
                   IF r.res = "Ok" THEN <<r.fin, r.sk, r.ek, r.spk>> ELSE <<>>)
-    /\ UNCHANGED <<setups, regs, files, sv, gcount>>
+    /\ UNCHANGED <<setups, regs, files, sv, garbage>>
 
 SLogFinishRes(j, fin) == IF Dev = "no_client_mac_check" \/ fin = Hmac(sv[j].km3, sv[j].th3)
                          THEN "Ok" ELSE "InvalidLogin"
@@ -359,7 +359,7 @@ SLogFinish(j, fin) ==
        /\ sv' = [sv EXCEPT ![j].st = "done", ![j].finIn = fin, ![j].fres = r]
        /\ Observe([ev |-> "SLogFinish", id |-> j, msg |-> EncAll(<<fin>>), res |-> r],
                   IF r = "Ok" THEN <<sv[j].sk>> ELSE <<>>)
-    /\ UNCHANGED <<setups, regs, files, cl, gcount>>
+    /\ UNCHANGED <<setups, regs, files, cl, garbage>>
 
 -----------------------------------------------------------------------------
 \* Persistence: saving and reloading any of the five state types, through the
@@ -369,11 +369,11 @@ SLogFinish(j, fin) ==
 Reload(kind, id, codec) ==
     /\ kind \in {"setup", "file", "reg", "cli", "srv"}
     /\ codec \in {"native", "bincode", "json"}
-    /\ CASE kind = "setup" -> setups[id].st = "live"
-         [] kind = "file"  -> files[id].st = "stored"
-         [] kind = "reg"   -> regs[id].st = "started"
-         [] kind = "cli"   -> cl[id].st = "started"
-         [] kind = "srv"   -> sv[id].st = "started"
+    /\ CASE kind = "setup" -> id \in SetupIds /\ setups[id].st = "live"
+         [] kind = "file"  -> id \in FileIds /\ files[id].st = "stored"
+         [] kind = "reg"   -> id \in RegIds /\ regs[id].st = "started"
+         [] kind = "cli"   -> id \in CliIds /\ cl[id].st = "started"
+         [] kind = "srv"   -> id \in SrvIds /\ sv[id].st = "started"
     /\ Observe([ev |-> "Reload", kind |-> kind, id |-> id, codec |-> codec], <<>>)
     /\ UNCHANGED pvars
 
@@ -386,7 +386,8 @@ Mut(field, cls) ==
     /\ field \in GroupFields \cup ByteFields
     /\ cls \in {"valid", "invalid"}
     /\ field \in ByteFields => cls = "valid"
-    /\ gcount' = gcount + 1
-    /\ Observe([ev |-> "Mut", field |-> field, cls |-> cls], <<Gbg(field, cls, gcount + 1)>>)
+    /\ LET g == Gbg(field, cls, Cardinality(garbage) + 1) IN
+       /\ garbage' = garbage \cup {g}
+       /\ Observe([ev |-> "Mut", field |-> field, cls |-> cls], <<g>>)
     /\ UNCHANGED <<setups, regs, files, cl, sv>>
 =============================================================================
